@@ -145,22 +145,34 @@ func (m *Module) EmitBinOp(x, y Value, op wat.OpCode) (insts []wat.Inst, ret_typ
 
 	case wat.OpCodeQuo:
 		ret_type = x.Type()
-		insts = append(insts, x.EmitPushNoRetain()...)
-		insts = append(insts, y.EmitPushNoRetain()...)
 
 		if ret_type.Equal(m.COMPLEX64) {
+			insts = append(insts, x.EmitPushNoRetain()...)
+			insts = append(insts, y.EmitPushNoRetain()...)
 			insts = append(insts, m.COMPLEX64.(*Complex64).emitDiv()...)
 		} else if ret_type.Equal(m.COMPLEX128) {
+			insts = append(insts, x.EmitPushNoRetain()...)
+			insts = append(insts, y.EmitPushNoRetain()...)
 			insts = append(insts, m.COMPLEX128.(*Complex128).emitDiv()...)
+		} else if t := toWatType(ret_type); isSignedInt(t) {
+			// x / -1 is -x also for the smallest value (wasm's div_s traps on that overflow)
+			insts = append(insts, m.emitDivByMinusOne(x, y, []wat.Inst{wat.NewInstConst(t, "0"), nil, wat.NewInstSub(t)}, wat.NewInstDiv(t))...)
 		} else {
+			insts = append(insts, x.EmitPushNoRetain()...)
+			insts = append(insts, y.EmitPushNoRetain()...)
 			insts = append(insts, wat.NewInstDiv(toWatType(ret_type)))
 		}
 
 	case wat.OpCodeRem:
 		ret_type = x.Type()
-		insts = append(insts, x.EmitPushNoRetain()...)
-		insts = append(insts, y.EmitPushNoRetain()...)
-		insts = append(insts, wat.NewInstRem(toWatType(ret_type)))
+		if t := toWatType(ret_type); isSignedInt(t) {
+			// x % -1 is 0 for every x (wasm's rem_s is defined, but the guard keeps both operators alike)
+			insts = append(insts, m.emitDivByMinusOne(x, y, []wat.Inst{wat.NewInstConst(t, "0")}, wat.NewInstRem(t))...)
+		} else {
+			insts = append(insts, x.EmitPushNoRetain()...)
+			insts = append(insts, y.EmitPushNoRetain()...)
+			insts = append(insts, wat.NewInstRem(toWatType(ret_type)))
+		}
 
 	case wat.OpCodeEql:
 		ins, _ := x.emitEq(y)
@@ -1192,5 +1204,36 @@ func (m *Module) emitShift(x, y Value, left bool) (insts []wat.Inst) {
 		insts = append(insts, wat.NewInstLt(wat.U32{}))
 	}
 	insts = append(insts, wat.NewInstIf(shift, fill, []wat.ValueType{t}))
+	return
+}
+
+func isSignedInt(t wat.ValueType) bool {
+	switch t.(type) {
+	case wat.I32, wat.I64:
+		return true
+	}
+	return false
+}
+
+// emitDivByMinusOne emits `if y == -1 { special } else { x op y }`; a nil entry of special stands for x
+func (m *Module) emitDivByMinusOne(x, y Value, special []wat.Inst, op wat.Inst) (insts []wat.Inst) {
+	t := toWatType(x.Type())
+	var sp []wat.Inst
+	for _, i := range special {
+		if i == nil {
+			sp = append(sp, x.EmitPushNoRetain()...)
+		} else {
+			sp = append(sp, i)
+		}
+	}
+	var normal []wat.Inst
+	normal = append(normal, x.EmitPushNoRetain()...)
+	normal = append(normal, y.EmitPushNoRetain()...)
+	normal = append(normal, op)
+
+	insts = append(insts, y.EmitPushNoRetain()...)
+	insts = append(insts, wat.NewInstConst(t, "-1"))
+	insts = append(insts, wat.NewInstEq(t))
+	insts = append(insts, wat.NewInstIf(sp, normal, []wat.ValueType{t}))
 	return
 }
